@@ -74,7 +74,8 @@ def history(rng, role, names, length):
             evs.append(("i", rng.choice(["app.req-host-local", "app.ans", "dwa.ok", "dpa.ok", "cea.ok"]), pick(), pick()))
             evs.append(("t",))
         elif r < 0.7:
-            evs.extend([("u", rng.randrange(1, 2 ** 32)), ("t",)])
+            # a local request is pending with an identifier the peer's next base request may also carry
+            evs.extend([("u", pick() or 1), ("t",)])
         elif r < 0.8:
             evs.extend([("w",), ("t",)])
         elif r < 0.92:
